@@ -1179,7 +1179,7 @@ def _order_equiv(ctx, t1, t2, ids, pre, lo, lows=None):
             props[k] = False
     names = memo.get("__names__", [])
     keys = sorted(props, key=lambda i_: repr(names[i_]))
-    if len(keys) > 12:
+    if len(keys) > 15:
         return None
     # equalities of one term with two different constants exclude each other
     excl = []
@@ -1558,6 +1558,20 @@ def gated_expr(v, expr, at, via=None):
             return None
         return [(v.ev._bool("and", [t, c]), x, s) for c, x, s in a] + [(v.ev._bool("and", [v.ev._not(t), c]), x, s) for c, x, s in b]
     return [(_true(v), v.term(expr, at=at, via=via), None)]
+
+
+def type_test(v, t):
+    """(subject term, [type terms]) when `t` says "subject has one of these types": `isinstance(x, T)`, `isinstance(x, (A, B))`
+    or a disjunction of such tests of one subject (the two spellings are one canonical term); None otherwise"""
+    d = decode_call(v.ctx, t)
+    if d and d[0] == "isinstance" and len(d[1]) == 2:
+        h2 = v.ctx.head_of(d[1][1])
+        return d[1][0], (list(v.ctx.args_of(d[1][1])) if h2 == ("tuple",) else [d[1][1]])
+    if v.ctx.head_of(t) == ("or",):
+        parts = [type_test(v, x) for x in v.ctx.args_of(t)]
+        if parts and all(p is not None for p in parts) and all(v.eq(p[0], parts[0][0]) for p in parts):
+            return parts[0][0], [y for p in parts for y in p[1]]
+    return None
 
 
 def returned_call(v, r):
